@@ -1,6 +1,9 @@
 import FormulaicVerif.Engines.Json
 import FormulaicVerif.Model.Parser
-/-! Engine for the parser stack (properties C01, C14, C15): ops `tokenize`, `tokens`, `terms`, `formula`. -/
+import FormulaicVerif.Model.FromSpec
+import FormulaicVerif.Model.BaseParser
+/-! Engine for the parser stack (properties C01, C14, C15): ops `tokenize`, `tokens`, `terms`, `formula`, `both`;
+for C01 also `spec` (every specification form: `Model/FromSpec.lean`). -/
 namespace FormulaicVerif.Engines.C01
 open Lean FormulaicVerif.Model FormulaicVerif.Engines
 
@@ -68,6 +71,169 @@ def errJ : ParseErr → Json
 def lexErrJ : LexErr → Json
   | _ => jerr "FormulaParsingError"
 
+/-! ### op `spec`: `Formula.from_spec` / `Formula(...)` / `StructuredFormula(...)` / `SimpleFormula(...)` -/
+
+/-- a formula string of a specification with its per-string data -/
+structure StrData where
+  cs : List CharInfo
+  env : PyEnv
+
+def strTable (j : Json) : List StrData :=
+  (jarr j "strs").map (fun sj =>
+    let e := envOf sj
+    { cs := charInfos sj, env := { e with available := (envOf j).available } })
+
+def evalOf (s : String) : EvalMethod :=
+  if s == "literal" then .literal else if s == "python" then .python else .lookup
+
+def termOfJ (j : Json) : Model.Term :=
+  Model.Term.ofFactors ((asArr j).map (fun f => match asArr f with
+    | [e, m] => Factor.mk (asStr e) (evalOf (asStr m))
+    | _ => Factor.mk "" .lookup))
+
+def itemOfJ (tab : List StrData) (j : Json) : FromSpec.Item StrData :=
+  match j.getObjVal? "s" with
+  | .ok i => match tab[asNat i]? with
+    | some d => .str d
+    | none => .bad
+  | .error _ =>
+    match j.getObjVal? "t" with
+    | .ok t => .term (termOfJ t)
+    | .error _ => .bad
+
+def ordOfJ (j : Json) : Option FromSpec.Ordering :=
+  match j with
+  | .str s => FromSpec.orderingOfString s
+  | _ => none
+
+instance : Inhabited (FromSpec.Spec StrData) := ⟨.other⟩
+
+partial def specOfJ (tab : List StrData) (j : Json) : FromSpec.Spec StrData :=
+  match jstr j "k" with
+  | "str" => match tab[jnat j "i"]? with
+    | some d => .str d
+    | none => .other
+  | "items" => .items ((jarr j "xs").map (itemOfJ tab))
+  | "dict" => .dict ((jarr j "fs").map (fun p => match asArr p with
+      | [k, v] => (asStr k, specOfJ tab v)
+      | _ => ("", .other)))
+  | "structured" => .structured ((jarr j "fs").map (fun p => match asArr p with
+      | [k, v] => (asStr k, specOfJ tab v)
+      | _ => ("", .other)))
+  | "tuple" => .tuple ((jarr j "xs").map (specOfJ tab))
+  | "built" => .built (specOfJ tab (jval j "root")) (ordOfJ (jval j "ord"))
+  | _ => .other
+
+def optCfg (j : Json) (k : String) : Option ParseCfg :=
+  match j.getObjVal? k with
+  | .ok (.obj _) => some (cfgOf (Json.mkObj [("cfg", jval j k)]))
+  | _ => none
+
+/-- like `valJ`, but a structure is the LIST of its (key, value) pairs, in order -/
+def valJO : Val → Json
+  | .set ts => jlist (ts.map termJ)
+  | .tuple vs => Json.mkObj [("t", jlist (listJ vs))]
+  | .struct fs => Json.mkObj [("s", jlist (fieldsJ fs))]
+where
+  listJ : List Val → List Json
+    | [] => []
+    | v :: vs => valJO v :: listJ vs
+  fieldsJ : List (String × Val) → List Json
+    | [] => []
+    | (k, v) :: fs => jlist [Json.str k, valJO v] :: fieldsJ fs
+
+def specErrJ : FromSpec.Err → Json
+  | .parse e => errJ e
+  | .invalid => jerr "internal:FormulaInvalidError"
+  | .value => jerr "internal:ValueError"
+  | .type => jerr "internal:TypeError"
+
+def specEnv : FromSpec.Env StrData := { parse := fun cfg d => parseTerms cfg d.env d.cs }
+
+def handleSpec (j : Json) : Json :=
+  let tab := strTable j
+  -- `ord` absent: the default of the entry point's signature (regenerated: `Gen.defaultOrderings`)
+  let entryIdx : Nat := match jstr j "entry" with
+    | "from_spec" => 0 | "formula" => 1 | "simple" => 2 | _ => 3
+  let ord := match jval j "ord" with
+    | .null => FromSpec.orderingOfString (Gen.defaultOrderings.getD entryIdx "")
+    | x => ordOfJ x
+  let parser := optCfg j "parser"
+  let nested := optCfg j "nested"
+  let kw : List (String × FromSpec.Spec StrData) := (jarr j "kw").map (fun p => match asArr p with
+    | [k, v] => (asStr k, specOfJ tab v)
+    | _ => ("", .other))
+  let root : Option (FromSpec.Spec StrData) := match j.getObjVal? "root" with
+    | .ok (.obj o) => some (specOfJ tab (.obj o))
+    | _ => none
+  let r : Except FromSpec.Err Val :=
+    match jstr j "entry" with
+    | "from_spec" => FromSpec.fromSpec specEnv ord parser nested (specOfJ tab (jval j "root"))
+    | "formula" => FromSpec.formulaCall specEnv ord parser nested root kw
+    | "structured" => FromSpec.structuredFormula specEnv ord parser nested root kw
+    | "simple" =>
+      let sr : FromSpec.SimpleRoot StrData := match jstr j "sroot" with
+        | "missing" => .missing
+        | "str" => .str
+        | "items" => .items ((jarr j "xs").map (itemOfJ tab))
+        | _ => .notIterable
+      FromSpec.simpleCall ord sr (jbool j "has_structure")
+    | _ => .error .type
+  match r with
+  | .error e => specErrJ e
+  | .ok v => Json.mkObj [("formula", valJO v)]
+
+/-! ### op `all`: every stage of `FormulaParser.parse` (targets TOKENS, AST, TERMS) and `Formula(<str>)` -/
+
+def fixStr : Fixity → String
+  | .infix => "infix" | .prefix => "prefix" | .postfix => "postfix"
+
+/-- `Token` leaves as `["tok", text, kind]`, `ASTNode`s as `["op", symbol, arity, fixity, [args]]` -/
+def astJ : Ast → Json
+  | .leaf t => jlist [Json.str "tok", Json.str (String.ofList t.text), Json.str (kindStr t.kind)]
+  | .node o args => jlist [Json.str "op", Json.str o.symbol, Json.num (JsonNumber.fromNat o.arity),
+      Json.str (fixStr o.fixity), jlist (argsJ args)]
+where
+  argsJ : List Ast → List Json
+    | [] => []
+    | a :: as => astJ a :: argsJ as
+
+def handleAll (j : Json) : Json :=
+  let cfg := cfgOf j
+  let env := envOf j
+  let cs := charInfos j
+  let tk := getTokens cfg env cs
+  let tokensJ : Json := match tk with
+    | .error e => errJ e
+    | .ok (ts, _) => jlist (ts.map (fun t => jlist [Json.str (String.ofList t.text), Json.str (kindStr t.kind)]))
+  let treeJ : Json := match tk with
+    | .error e => errJ e
+    | .ok (ts, _) =>
+      match tokensToAst cfg.table ts with
+      | .error e => errJ e
+      | .ok none => Json.null
+      | .ok (some a) => astJ a
+  let termsJ : List (String × Json) := match parseTerms cfg env cs with
+    | .error e => [("terms", errJ e), ("formula", errJ e)]
+    | .ok v => [("terms", valJ v), ("formula", valJ (mapLeaves sortByDegree (simplifyVal (valDepth v + 2) v)))]
+  Json.mkObj ([("tokens", tokensJ), ("ast", treeJ)] ++ termsJ)
+
+
+/-- op `base`: the base class `FormulaParser` with a `DefaultOperatorResolver` (lazy token pipeline) -/
+def handleBase (j : Json) : Json :=
+  let cfg := cfgOf j
+  let env := envOf j
+  let cs := charInfos j
+  let treeJ : Json := match BaseParser.baseAst cfg env cs with
+    | .error e => errJ e
+    | .ok none => Json.null
+    | .ok (some a) => astJ a
+  let termsJ : Json := match BaseParser.baseTerms cfg env cs with
+    | .error e => errJ e
+    | .ok v => valJ v
+  Json.mkObj [("ast", treeJ), ("terms", termsJ)]
+
+
 def handle (j : Json) : Json :=
   match jstr j "op" with
   | "tokenize" =>
@@ -91,6 +257,9 @@ def handle (j : Json) : Json :=
     | .error e => errJ e
     | .ok v => Json.mkObj [("terms", valJ v),
         ("formula", valJ (mapLeaves sortByDegree (simplifyVal (valDepth v + 2) v)))]
+  | "spec" => handleSpec j
+  | "all" => handleAll j
+  | "base" => handleBase j
   | op => jerr ("unknown op " ++ op)
 
 end FormulaicVerif.Engines.C01
